@@ -146,23 +146,56 @@ JEquivNN(s, a, b) ==
 JEquiv(s, a, b) == IF a.t = "null" \/ b.t = "null" THEN (a.t = b.t \/ (s.k = "any" /\ a.c = b.c)) ELSE JEquivNN(s, a, b)
 
 (* ---------------- Impl: the generated object writer (marshalJSONInnerBody) ---------------- *)
-\* Token streams: <<"," | [key |-> k] ...>>.  Members of an allOf are written one after the other:
-\*  an inline member shares the outer `comma` register; an embedded ($ref) member writes its own body
-\*  starting from an empty register, after which the outer register is set to "," unconditionally
-\*  (v0: the generated code of the pinned tree).  members : Seq([emb : BOOLEAN, keys : Seq(STRING)])
-RECURSIVE WriteKeys(_, _, _)
-WriteKeys(keys, toks, comma) == IF keys = << >> THEN [toks |-> toks, comma |-> comma]
-                                ELSE WriteKeys(Tail(keys), toks \o (IF comma THEN <<",">> ELSE << >>) \o << Head(keys) >>, TRUE)
-RECURSIVE WriteMembers(_, _, _)
-WriteMembers(ms, toks, comma) ==
-    IF ms = << >> THEN toks
-    ELSE LET m == Head(ms) IN
-         IF m.emb THEN WriteMembers(Tail(ms), toks \o WriteKeys(m.keys, << >>, FALSE).toks, TRUE)
-         ELSE LET r == WriteKeys(m.keys, toks, comma) IN WriteMembers(Tail(ms), r.toks, r.comma)
-\* a well-formed member list: key ("," key)*
+\* An object value as the writer sees it:
+\*   [fields : Seq(Field), addl : Seq(STRING)]
+\*   Field = [k : "prop", name, state : "set" | "unset" | "null"]      a required / optional / nullable property
+\*         | [k : "member", emb : BOOLEAN, obj : Object]               an allOf member: inline members' fields belong to the
+\*                                                                      outer struct (shared `comma`), embedded ($ref) members
+\*                                                                      run their own marshalJSONInnerBody
+\* Token stream: CommaTok | [key |-> name, v |-> "value" | "null"].
+\* fixed = TRUE : an embedded member is rendered into a buffer and takes part in the comma protocol only when
+\*                non-empty (the repaired template);  fixed = FALSE : the pinned tree - the member writes straight to
+\*                `out` starting from an empty register, and the outer register is set to "," unconditionally.
+CommaTok == [key |-> ",", v |-> ","]          \* tokens are all records (TLC cannot compare a record with a string)
+Sep(comma) == IF comma THEN << CommaTok >> ELSE << >>
+RECURSIVE WriteObj(_, _, _, _)
+RECURSIVE WriteFields(_, _, _, _)
+WriteFields(fs, toks, comma, fixed) ==
+    IF fs = << >> THEN [toks |-> toks, comma |-> comma]
+    ELSE LET f == Head(fs) IN
+         IF f.k = "prop" THEN
+              IF f.state = "unset" THEN WriteFields(Tail(fs), toks, comma, fixed)
+              ELSE WriteFields(Tail(fs), toks \o Sep(comma) \o << [key |-> f.name, v |-> IF f.state = "null" THEN "null" ELSE "value"] >>, TRUE, fixed)
+         ELSE IF ~f.emb THEN
+              LET r == WriteFields(f.obj.fields, toks, comma, fixed) IN WriteFields(Tail(fs), r.toks, r.comma, fixed)
+         ELSE LET body == WriteObj(f.obj, << >>, FALSE, fixed).toks IN
+              IF fixed THEN (IF body = << >> THEN WriteFields(Tail(fs), toks, comma, fixed)
+                             ELSE WriteFields(Tail(fs), toks \o Sep(comma) \o body, TRUE, fixed))
+              ELSE WriteFields(Tail(fs), toks \o body, TRUE, fixed)
+WriteObj(o, toks, comma, fixed) ==
+    LET r == WriteFields(o.fields, toks, comma, fixed)
+        RECURSIVE addl(_, _, _)
+        addl(ks, t, c) == IF ks = << >> THEN [toks |-> t, comma |-> c]
+                          ELSE addl(Tail(ks), t \o Sep(c) \o << [key |-> Head(ks), v |-> "value"] >>, TRUE)
+    IN addl(o.addl, r.toks, r.comma)
+
+\* what must be written: every set / null property of the object and of all its members, and the map entries
+RECURSIVE ExpectedPairs(_)
+ExpectedPairs(o) ==
+    UNION { IF o.fields[i].k = "prop"
+            THEN (IF o.fields[i].state = "unset" THEN {} ELSE { [key |-> o.fields[i].name, v |-> IF o.fields[i].state = "null" THEN "null" ELSE "value"] })
+            ELSE ExpectedPairs(o.fields[i].obj) : i \in DOMAIN o.fields }
+    \cup { [key |-> o.addl[i], v |-> "value"] : i \in DOMAIN o.addl }
+
+\* a well-formed member list: pair ("," pair)*
 RECURSIVE WFToks(_, _)
-WFToks(toks, expectKey) == IF toks = << >> THEN ~expectKey
-                           ELSE IF expectKey THEN Head(toks) # "," /\ WFToks(Tail(toks), FALSE)
-                           ELSE Head(toks) = "," /\ Tail(toks) # << >> /\ WFToks(Tail(toks), TRUE)
+WFToks(toks, expectPair) == IF toks = << >> THEN ~expectPair
+                            ELSE IF expectPair THEN Head(toks).key # "," /\ WFToks(Tail(toks), FALSE)
+                            ELSE Head(toks).key = "," /\ Tail(toks) # << >> /\ WFToks(Tail(toks), TRUE)
 WellFormedBody(toks) == toks = << >> \/ WFToks(toks, TRUE)
+PairsOf(toks) == { toks[i] : i \in { k \in DOMAIN toks : toks[k].key # "," } }
+WriterOK(o, fixed) == LET t == WriteObj(o, << >>, FALSE, fixed).toks IN
+                      /\ WellFormedBody(t)
+                      /\ PairsOf(t) = ExpectedPairs(o)
+                      /\ Cardinality(PairsOf(t)) = Cardinality({ i \in DOMAIN t : t[i].key # "," })      \* nothing written twice
 =============================================================================
